@@ -8,6 +8,7 @@ import (
 	"github.com/csgura/fp"
 	"github.com/csgura/fp/either"
 	"github.com/csgura/fp/future"
+	"github.com/csgura/fp/iterator"
 	"github.com/csgura/fp/try"
 	"verif/harness/sim"
 )
@@ -536,6 +537,113 @@ func c02NilValuedReturn(r *sim.Run) {
 	}
 }
 
+// c02NoErrorFailure: an operand that has failed without carrying an error - the zero-value fp.Try (a map miss, an
+// unassigned field), Failure(nil), a failure whose error was mapped to nil. It is a failure: continuations and the
+// functions of later elements are not invoked, and what comes out is a failure (with some non-nil error where an error
+// is returned), never a success.
+func c02NoErrorFailure(r *sim.Run) {
+	r.Case = "no-error-failure"
+	mk := [...]func() fp.Try[int]{
+		func() fp.Try[int] { return fp.Try[int]{} },
+		func() fp.Try[int] { return fp.Failure[int](nil) },
+		func() fp.Try[int] { return fp.Failure[int](errors.New("x")).MapError(func(error) error { return nil }) },
+	}
+	mkNames := [...]string{"the zero-value Try", "Failure(nil)", "Failure(e).MapError(-> nil)"}
+	w := r.Choose(len(mk), "noErrKind")
+	bad := mk[w]()
+	names := [...]string{"try.Traverse_", "Unapply / try.Call(t.Unapply)", "try.FlatMap", "Try.FlatMap/Map methods", "try.Map2", "try.TraverseSeq"}
+	k := r.Choose(len(names), "noErrCase")
+	r.MixFingerprintS("no-error-failure:" + names[k] + mkNames[w])
+	sim.NoteCase("C02 no-error-failure " + names[k])
+	r.Probe("operands-failed-without-an-error")
+	r.Fault("operand-fails-without-an-error")
+	r.NonTrivial()
+	viol := func(format string, a ...any) {
+		r.Violate("wrong-calls:no-error-failure", "%s with an operand that is %s: %s", names[k], mkNames[w], fmt.Sprintf(format, a...))
+	}
+	var calls []int
+	failAt := 1 + r.Choose(3, "noErrAt")
+	step := func(i int) fp.Try[int] {
+		calls = append(calls, i)
+		if i == failAt {
+			return bad
+		}
+		return fp.Success(i)
+	}
+	wantCalls := func() string {
+		var w []int
+		for i := 1; i <= failAt; i++ {
+			w = append(w, i)
+		}
+		return fmt.Sprint(w)
+	}
+	// (the library refuses such an operand with a panic in several places - "Try not initialized correctly": the failure
+	// has surfaced, which is fine; what must not happen is that it is taken for a success and the computation goes on)
+	defer func() {
+		if p := recover(); p != nil {
+			r.Probe("no-error-failures-refused-with-a-panic")
+			if k == 0 || k == 5 {
+				if fmt.Sprint(calls) != wantCalls() {
+					viol("panicked (%v) after invoking functions at %v, want %s", p, calls, wantCalls())
+				}
+			}
+		}
+	}()
+	switch k {
+	case 0:
+		err := try.Traverse_(iterator.FromSlice([]int{1, 2, 3, 4}), step)
+		if err == nil {
+			viol("Traverse_ returned nil although element %d failed (functions invoked at %v)", failAt, calls)
+		} else if fmt.Sprint(calls) != wantCalls() {
+			viol("functions invoked at %v, want %s (none after the failing element)", calls, wantCalls())
+		}
+	case 1:
+		_, err := bad.Unapply()
+		if err == nil {
+			viol("Unapply returned a nil error for a failure")
+			return
+		}
+		if t := try.Call(bad.Unapply); t.IsSuccess() {
+			viol("try.Call(t.Unapply) is %v, want a failure", t)
+		}
+	case 2:
+		called := false
+		t := try.FlatMap(bad, func(int) fp.Try[int] { called = true; return fp.Success(1) })
+		if called || t.IsSuccess() {
+			viol("continuation invoked=%v, result %v", called, t.IsSuccess())
+		}
+	case 3:
+		called := false
+		t := bad.FlatMap(func(int) fp.Try[int] { called = true; return fp.Success(1) }).Map(func(int) int { called = true; return 2 })
+		if called || t.IsSuccess() {
+			viol("continuation invoked=%v, result success=%v", called, t.IsSuccess())
+		}
+	case 4:
+		called := false
+		t := try.Map2(bad, fp.Success(2), func(a, b int) int { called = true; return a + b })
+		if called || t.IsSuccess() {
+			viol("function invoked=%v, result success=%v", called, t.IsSuccess())
+		}
+	default:
+		t := try.TraverseSeq(fp.Seq[int]{1, 2, 3, 4}, step)
+		if t.IsSuccess() {
+			viol("TraverseSeq is a success although element %d failed", failAt)
+		} else if fmt.Sprint(calls) != wantCalls() {
+			viol("functions invoked at %v, want %s (none after the failing element)", calls, wantCalls())
+		}
+	}
+}
+
+// c02NilPtrErr: an error type with a pointer receiver; a nil *c02NilPtrErr stored in an error is a non-nil error.
+type c02NilPtrErr struct{ msg string }
+
+func (e *c02NilPtrErr) Error() string {
+	if e == nil {
+		return "error value holding a nil pointer"
+	}
+	return e.msg
+}
+
 func c02Panics(r *sim.Run) {
 	r.Case = "panic-capture"
 	if w := r.Choose(12, "errorValued"); w < 4 {
@@ -544,12 +652,20 @@ func c02Panics(r *sim.Run) {
 	} else if w < 7 {
 		c02NilValuedReturn(r)
 		return
+	} else if w == 7 {
+		c02NoErrorFailure(r)
+		return
 	}
 	kind := r.Choose(10, "panicKind")
 	names := [...]string{"try.Of", "try.Call", "try.CallUnit", "future.Apply", "future.Apply2", "future.Func0", "future.Func1", "future.Func2", "future.Func3", "future.Unit1"}
 	mode := r.Choose(3, "bodyMode") // 0 normal return, 1 returns error (where the signature allows), 2 panics
 	pv := c02PanicVals[r.Choose(len(c02PanicVals), "panicValue")]
 	sentinel := errors.New("body-error")
+	if r.Bool(1, 3, "typedNilError") {
+		// a non-nil error VALUE whose dynamic value is a nil pointer: `err != nil` holds, the body has failed
+		var tn *c02NilPtrErr
+		sentinel = tn
+	}
 	if (kind == 0 || kind == 3) && mode == 1 {
 		mode = 0 // try.Of / future.Apply bodies have no error result
 	}
